@@ -616,11 +616,12 @@ struct H {
             return std::string(b);
         };
         auto classify = [&](const std::string &base) {
-            if (fl.pow_fractional) {
-                return std::string("pow-fractional-operand");
-            }
+            // an expression that contains (-b)^(-2k) deviates by the listed finding KF-C04-1 whatever else it contains
             if (fl.pow_neg_base_neg_exp) {
                 return std::string("pow-neg-base-neg-exp");
+            }
+            if (fl.pow_fractional) {
+                return std::string("pow-fractional-operand");
             }
             if (fl.pow_zero_neg) {
                 return std::string("pow-zero-base-neg-exp");
